@@ -22,7 +22,7 @@ from .. import rowlib as R
 MANIFEST = dict(
     text="Proof (partial): Lean theorem parse_unparse_partial — parse_row(unparse_row(m, layout)) = m over a hand model of RowParser + CellParser — for every row model without header remaps whose fields are str/int/float/bool, lists of those, untyped lists, sub-records of basic fields and lists of such sub-records, under EVERY admissible target-header set (each list, sub-record and list element independently spread over one column per leaf or packed into one cell), for unbounded strings, integers, list lengths and numbers of fields, with default elision/restoration; int(str(i)) = i proved; each hypothesis has a kernel-checked negative witness that is replayed on the real code. The general statement C07_full stays visible and unproved for: remapped headers (so FlowRowModel itself), sub-records holding lists or sub-records, lists of lists. The flow row schema and all remap dictionaries are tied to the source by T1 theorems (tables_agree_*). The model is tied to the code by differential runs over dynamically created pydantic row models (fixed + random schemas + FlowRowModel) × all target-header subsets (≤ 64, sampled beyond) × strings over | ; \\ space newline , \" é 日 1 0 true and field-name-shaped strings, on the intermediate dict and on the parsed value; direct oracle parse_row(unparse_row(m, layout)) == m on the real code and through real csv/xlsx files.",
     ref="§5 C07",
-    note="Trusts: Lean kernel (axioms audited each run), the differential harness and Driver JSON codec, pydantic v1 (field order, defaults, ==), CPython str()/int()/float() as modelled (float is an abstract codec carrying repr(x)), tablib/csv/openpyxl for the file route. FlowRowModel round trips are covered by tie + oracle (≈ 7 k in-domain rows per quick run), not by the theorem. Known finding F-C04-d (spread untyped list of lists) excluded from the main stream and exercised separately. Templates ('{') and U+0001 are outside the representable domain.",
+    note="Trusts: Lean kernel (axioms audited each run), the differential harness and Driver JSON codec, pydantic v1 (field order, defaults, ==), CPython str()/int()/float() as modelled (float is an abstract codec carrying repr(x)), tablib/csv/openpyxl for the file route. FlowRowModel round trips are covered by tie + oracle (≈ 7 k in-domain rows per quick run), not by the theorem. Known finding F-C04-d (spread untyped list of lists) excluded from the main stream and exercised separately. Templates ('{') are outside the representable domain.",
     technique="Lean 4 proof (record-level induction over fields, frame/nesting lemmas for find_entry, C08 split_join for packed cells) + model/code correspondence + direct round-trip oracle",
 )
 
